@@ -131,7 +131,9 @@ type Server struct {
 	blockSizes   []int
 	PeerEnc      *PeerEncoder
 	EventLog     []string
-	ConnClosedAt int // event index at which the server closed the transport (-1: open)
+	ConnClosedAt int   // event index at which the server closed the transport (-1: open)
+	EnvSeq       int   // SPX: environment steps executed so far
+	OutOffset    []int // SPX: byte offset (in the explored phase's output) at which Out[i] started; -1 for earlier frames
 }
 
 type hlogger struct{ h *Server }
